@@ -288,6 +288,58 @@ pub fn judge_c11(info: &Info, log: &RunLog, rep: &mut Report) {
             }
         }
     }
+    // "its own limits": a receive transaction started by a stray or replayed PDU runs under the configuration
+    // of the entity named as its source, like any other; its inactivity fault comes L x Ti after the last PDU
+    {
+        let k = &info.knobs[0];
+        let need = k.limit as u64 * k.ti as u64 * 1_000_000;
+        let mut first_seen: HashSet<(TransactionID, bool)> = HashSet::new();
+        for sp in &d.tasks {
+            if sp.kind != TaskKind::Recv {
+                continue;
+            }
+            let first_life = first_seen.insert((sp.id, true));
+            let stray = sp.id.1.to_u64() >= 30000 || !first_life;
+            if !stray {
+                continue;
+            }
+            let end = sp.end_us.unwrap_or(log.end_us);
+            // with two live tasks for one id (a re-created transaction next to an orphaned one) indications cannot
+            // be attributed to one of them: not judged
+            let overlapping = d.tasks.iter().any(|o| o.kind == TaskKind::Recv && o.id == sp.id && o.start_us != sp.start_us && o.start_us <= end && o.end_us.unwrap_or(log.end_us) >= sp.start_us);
+            if overlapping {
+                continue;
+            }
+            // the entity that hosts it: where its PDUs arrived
+            let mut host = None;
+            let mut arr_t: Vec<u64> = vec![];
+            for r in &log.recs {
+                if let Ev::Arrive { ent, pdu: Some(p), .. } = &r.ev {
+                    if pdu_tid(p) == sp.id && p.header.direction == Direction::ToReceiver && r.t_us >= sp.start_us && r.t_us <= end {
+                        host = host.or(Some(*ent));
+                        if host == Some(*ent) {
+                            arr_t.push(r.t_us);
+                        }
+                    }
+                }
+            }
+            let host = match host {
+                Some(h) => h,
+                None => continue,
+            };
+            for (_, tf, f) in d.faults(host, sp.id) {
+                if f.condition == Condition::InactivityDetected && tf >= sp.start_us && tf <= end {
+                    let last = arr_t.iter().filter(|t| **t < tf).max().cloned().unwrap_or(sp.start_us);
+                    rep.count("c11_stray_inactivity_timed");
+                    let el = tf - last;
+                    if el + 10_000 < need || el > need + k.limit as u64 * 50_000 + 10_000 {
+                        rep.violate("stray-limits-wrong", format!("{} L={} Ti={}", if el < need { "early" } else { "late" }, k.limit, k.ti), &info.case, w(&format!("receive transaction {} started by a stray/replayed PDU declared InactivityDetected {:.3}s after its last PDU; the configuration for that source entity says {} x {} s", sp.id, el as f64 / 1e6, k.limit, k.ti)));
+                    }
+                    break;
+                }
+            }
+        }
+    }
     // two live receive transactions for one id at the same time
     for (i, a) in d.tasks.iter().enumerate() {
         for bsp in d.tasks.iter().skip(i + 1) {
